@@ -6,13 +6,20 @@ export GOFLAGS=-mod=mod GOPROXY=off GOSUMDB=off GOTOOLCHAIN=local
 name="$1"; prop="$2"; shift 2
 wt="/tmp/seed-$name"; out="/verif/seeded/$name"
 mkdir -p "$out"
-cd "$wt" || exit 2
-git diff -- . ':!*seeded*' > "$out/patch.diff"
-[ -s "$out/patch.diff" ] || { echo "no source change in $wt"; exit 2; }
-demos="$(git ls-files -o --exclude-standard | grep -i 'seeded.*_test.go' )"
-[ -n "$demos" ] || { echo "no demo test"; exit 2; }
-for d in $demos; do mkdir -p "$out/demo/$(dirname "$d")"; cp "$d" "$out/demo/$d"; done
-[ -f SEEDED.md ] && cp SEEDED.md "$out/SEEDED.md"
+if [ -d "$wt" ]; then
+  # first evaluation: take the change, the demonstration and the write-up out of the agent's worktree
+  cd "$wt" || exit 2
+  git diff -- . ':!*seeded*' > "$out/patch.diff"
+  [ -s "$out/patch.diff" ] || { echo "no source change in $wt"; exit 2; }
+  demos="$(git ls-files -o --exclude-standard | grep -i 'seeded.*_test.go' )"
+  [ -n "$demos" ] || { echo "no demo test"; exit 2; }
+  for d in $demos; do mkdir -p "$out/demo/$(dirname "$d")"; cp "$d" "$out/demo/$d"; done
+  [ -f SEEDED.md ] && cp SEEDED.md "$out/SEEDED.md"
+else
+  # re-evaluation from what is stored under /verif/seeded/<name>
+  [ -s "$out/patch.diff" ] || { echo "nothing stored for $name"; exit 2; }
+  demos="$(cd "$out/demo" && find . -name '*_test.go' | sed 's#^\./##')"
+fi
 demodir="./$(dirname "$(echo "$demos" | head -1)")"
 # evaluate on a fresh worktree of /repo's CURRENT head (the agent's worktree may predate a fix commit)
 ev="/tmp/seedeval-$name"
